@@ -16,15 +16,18 @@ import Ark.Model.AffGroup
       `curves/bn254/src/curves/{g1,g2}.rs`, `test-curves/src/bls12_381/{g1,g2}.rs`
 
   As in `Ark.ScalarMul` (C04) only the *group element* is tracked: the routines are written over an
-  abstract group given by core operator classes (`[Add G] [Neg G] [Sub G] [Zero G] [DecidableEq G]`,
-  doubling is `P + P`), the scalar multiplications are the C04 models of the very functions the Rust
+  abstract group given by core operator classes (`[Add G] [Neg G] [Sub G] [Zero G] [BEq G]`,
+  doubling is `P + P`, `==` is `PartialEq` of `Projective` / `Affine`, `x == 0` is `is_zero`), the scalar multiplications are the C04 models of the very functions the Rust
   code calls (`mul_affine` = `sw_double_and_add_affine`, `Projective::mul_bigint` = the configuration's
   `mul_projective`, i.e. GLV for BLS12-381 G1).  The coordinate-level endomorphisms `φ`, `ψ`, `ψ²` need
   the coordinates of a point: the record `XY F G` gives `Affine::xy` / `new_unchecked` of the concrete group.
 
-  The driver executes the routines at the specification-level affine groups: `Ark.AffPt p E`
-  (`AffGroup.lean`) and `Ark.ScalarMul.TEPt p E` for curves over prime fields, and the small generic
-  affine group `SWPt E` of this file over the minimal extension fields `Fq2 p β`, `Fq3 p β`.
+  The routines can be executed at the specification-level affine groups `Ark.AffPt p E`
+  (`AffGroup.lean`), `Ark.ScalarMul.TEPt p E`, and the small generic affine group `SWPt E` of this file
+  over the minimal extension fields `Fq2 p β`, `Fq3 p β` (these carry the executable SPEC of the driver);
+  for speed (one field inversion per affine group operation) the driver runs the MODEL over the
+  coordinate systems of the Rust code (`Ark.Curve.SW.Jac`, `Ark.Curve.TE.Ext`, the C03 model of the
+  projective formulas), whose `==` is the cross-multiplied `PartialEq`.
 -/
 namespace Ark.Subgroup
 open Ark Ark.ScalarMul
@@ -167,7 +170,7 @@ structure CurveCfg where
 def CurveCfg.characteristic (c : CurveCfg) : List Nat := toLimbs c.nLimbs c.r
 
 section generic
-variable {G : Type} [Add G] [Neg G] [Sub G] [Zero G] [DecidableEq G]
+variable {G : Type} [Add G] [Neg G] [Sub G] [Zero G] [BEq G]
 
 /-! ## short Weierstrass defaults -/
 
@@ -177,7 +180,7 @@ def swIsInCorrectSubgroup (c : CurveCfg) (item : G) : Outcome Bool :=
   match cofactorIsOne c.cofactor with
   | .panic => .panic
   | .ok true => .ok true
-  | .ok false => .ok (decide (swMulAffine item c.characteristic = 0))
+  | .ok false => .ok (swMulAffine item c.characteristic == 0)
 
 /-- `<Affine<P> as AffineRepr>::mul_by_cofactor_to_group`: `P::mul_affine(self, COFACTOR)` -/
 def swMulByCofactorToGroup (c : CurveCfg) (P : G) : G := swMulAffine P c.cofactor
@@ -203,7 +206,7 @@ def swSampleProjective (c : CurveCfg) (p : G) : G := swMulByCofactorToGroup c p
 /-- `TECurveConfig::is_in_correct_subgroup_assuming_on_curve` (trait default):
     `Self::mul_affine(item, r).is_zero()` -/
 def teIsInCorrectSubgroup (c : CurveCfg) (item : G) : Outcome Bool :=
-  .ok (decide (teMulAffine item c.characteristic = 0))
+  .ok (teMulAffine item c.characteristic == 0)
 
 def teMulByCofactorToGroup (c : CurveCfg) (P : G) : G := teMulAffine P c.cofactor
 def teMulByCofactor (c : CurveCfg) (P : G) : G := teMulByCofactorToGroup c P
@@ -264,13 +267,13 @@ def g1Endomorphism (io : XY F G) (beta : F) (p : G) : G := io.map (fun x y => (x
     ``` -/
 def bls12381G1IsInCorrectSubgroup (io : XY F G) (k : Bls12G1 F) (p : G) : Outcome Bool :=
   let xTimesP := swAffMulBigint p k.x
-  if xTimesP = p ∧ p ≠ 0 then .ok false
+  if xTimesP == p && !(p == 0) then .ok false
   else
     match swProjMulBigint (.glv k.glv) (g1Endomorphism io k.glvEndoCoeff) xTimesP k.x with
     | .panic => .panic
     | .ok q =>
       let minusXSquaredTimesP := - q
-      .ok (decide (minusXSquaredTimesP = g1Endomorphism io k.beta p))
+      .ok (minusXSquaredTimesP == g1Endomorphism io k.beta p)
 
 /-- `bls12_381::g1::Config::clear_cofactor`: `mul_affine(p, one_minus_x().into_bigint())` -/
 def bls12381G1ClearCofactor (c : CurveCfg) (k : Bls12G1 F) (p : G) : G :=
@@ -291,7 +294,7 @@ end generic
 /-! ## `G2` of BLS12-381, BLS12-377, BN254 (base field `Fq2`) -/
 
 section g2
-variable {p nr : Nat} {G : Type} [Add G] [Neg G] [Sub G] [Zero G] [DecidableEq G]
+variable {p nr : Nat} {G : Type} [Add G] [Neg G] [Sub G] [Zero G] [BEq G]
 
 /-- `Fp2::frobenius_map_in_place(1)`: `c0` is in the prime field; `c1 *= FROBENIUS_COEFF_FP2_C1[1 % 2]` -/
 def fq2Frobenius (frobC1 : List Nat) (a : Fq2 p nr) : Outcome (Fq2 p nr) :=
@@ -387,7 +390,7 @@ def bls12381G2IsInCorrectSubgroup (io : XY (Fq2 p nr) G) (k : G2Cfg) (xLimbs : L
   let xTimesPoint := if k.xIsNegative then - xTimesPoint else xTimesPoint
   match bls12381PPowerEndomorphism io k point with
   | .panic => .panic
-  | .ok pTimesPoint => .ok (decide (xTimesPoint = pTimesPoint))
+  | .ok pTimesPoint => .ok (xTimesPoint == pTimesPoint)
 
 /-- `bn254::g2::Config::is_in_correct_subgroup_assuming_on_curve`:
     `point.mul_bigint(SIX_X_SQUARED).eq(&p_power_endomorphism(point))` -/
@@ -395,7 +398,7 @@ def bn254G2IsInCorrectSubgroup (io : XY (Fq2 p nr) G) (k : G2Cfg) (point : G) : 
   let xTimesPoint := swAffMulBigint point bn254SixXSquared
   match pPowerEndomorphismMul io k bn254Psi point with
   | .panic => .panic
-  | .ok pTimesPoint => .ok (decide (xTimesPoint = pTimesPoint))
+  | .ok pTimesPoint => .ok (xTimesPoint == pTimesPoint)
 
 /-- `bls12_381::g2::Config::clear_cofactor` (Budroni–Pintore, `x < 0` handled by negating):
     ```
